@@ -374,9 +374,9 @@ contract(
         # feaLib's GlyphClassDefStatement(baseGlyphs, markGlyphs, ligatureGlyphs, componentGlyphs): each argument is the sorted class of ITS category
         # = exactly the exported glyphs of that category, in increasing order (`_sortedGlyphClass` is called through its CONTRACT, c18gdef.py)
         "statement-kind": f"{_LAST}.kind == 'GlyphClassDefStatement'",
-        **{f"argument-order-{cat}": f"all(n in {_OGSW} and n in {_C}.{cat} for n in {_LAST}.{cat}Glyphs.glyphs)"
-           f" and all(implies(n in {_C}.{cat}, n in {_LAST}.{cat}Glyphs.glyphs) for n in {_OGSW})"
-           f" and all(all(implies(k1 < k2, {_LAST}.{cat}Glyphs.glyphs[k1] <= {_LAST}.{cat}Glyphs.glyphs[k2]) for k2 in range(len({_LAST}.{cat}Glyphs.glyphs))) for k1 in range(len({_LAST}.{cat}Glyphs.glyphs)))"
+        **{f"argument-order-{cat}-only": f"all(n in {_OGSW} and n in {_C}.{cat} for n in {_LAST}.{cat}Glyphs.glyphs)" for cat in ("base", "mark", "ligature", "component")},
+        **{f"argument-order-{cat}-every": f"all(implies(n in {_C}.{cat}, n in {_LAST}.{cat}Glyphs.glyphs) for n in {_OGSW})" for cat in ("base", "mark", "ligature", "component")},
+        **{f"argument-order-{cat}-sorted": f"all({_LAST}.{cat}Glyphs.glyphs[k] <= {_LAST}.{cat}Glyphs.glyphs[k + 1] for k in range(len({_LAST}.{cat}Glyphs.glyphs) - 1))"
            for cat in ("base", "mark", "ligature", "component")},
         # additive: a user-written GDEF block keeps its statements, in order, in front of the generated one
         "user-gdef-kept": "implies(self.context.gdefTableBlock, self.context.gdefTableBlock.stmt_ids[:len(self.context.gdefTableBlock.stmt_ids) - 1] == old(self.context.gdefTableBlock.stmt_ids)"
